@@ -362,6 +362,10 @@ func (z *Z) quote(q Quote, extraOK bool) []ln {
 		}
 		out = append(out, ln{s: p + l.s, sc: len(p) + l.sc})
 	}
+	if q.Trail {
+		out = append(out, ln{s: z.ind3(extraOK) + ">" + sp(z.s.Intn(3))})
+		z.note("quote-trailing-marker-line")
+	}
 	return out
 }
 
@@ -403,6 +407,10 @@ func (z *Z) list(l List, extraOK bool, avoidMarker byte) []ln {
 			continue
 		}
 		gap := 1 + z.s.Intn(4)
+		if _, ok := it[0].(ICode); ok {
+			gap = 1 // the item begins with indented code: one space belongs to the marker, the code's own four follow
+			z.note("item-begins-with-indented-code")
+		}
 		if gap > 1 {
 			z.note("marker-gap")
 		}
@@ -622,12 +630,23 @@ func (z *Z) doc(d Doc) string {
 		if last := slots[k][len(slots[k])-1]; last.Title == nil && coin(z.s, 1, 4) {
 			// near miss: a title-like line followed by more text is not a title
 			// but a paragraph of its own; the definition stays without title
-			pseudo := []string{"\"abc\" def", "'abc' def", "(abc) def", "\"abc\" [x]", "\"a\" \"b\""}[z.s.Intn(5)]
-			ls = append(ls, sp(z.s.Intn(3))+pseudo)
+			// (also when the text that follows looks like another definition: a definition cannot interrupt
+			// the paragraph the title-like line has started)
+			pseudo := []string{"\"abc\" def", "'abc' def", "(abc) def", "\"abc\" [x]", "\"a\" \"b\"", "\"abc\" [zzq]: /nowhere", "(abc) [zzq]: /nowhere 't'"}[z.s.Intn(7)]
 			if z.extraParas == nil {
 				z.extraParas = map[int][]Block{}
 			}
-			z.extraParas[k] = append(z.extraParas[k], Para{[]Inline{Text{pseudo}}})
+			if coin(z.s, 1, 5) {
+				// an unclosed title-like line followed by a definition-like line: two lines of one paragraph
+				open := []string{"\"abc", "'abc def", "(abc"}[z.s.Intn(3)]
+				second := []string{"[zzr]: /nowhere", "[zzr]: /nowhere \"t\"", "def"}[z.s.Intn(3)]
+				ls = append(ls, sp(z.s.Intn(3))+open, sp(z.s.Intn(3))+second)
+				z.extraParas[k] = append(z.extraParas[k], Para{[]Inline{Text{open}, Soft{}, Text{second}}})
+				z.note("near-miss-title-unclosed")
+			} else {
+				ls = append(ls, sp(z.s.Intn(3))+pseudo)
+				z.extraParas[k] = append(z.extraParas[k], Para{[]Inline{Text{pseudo}}})
+			}
 			z.note("near-miss-title-line")
 		}
 		groups = append(groups, ls)
